@@ -133,18 +133,33 @@ var sideEffectRE = regexp.MustCompile(`(^|[^=!<>])=([^=]|$)|\bnow\b|\btoDay\b|\b
 // the second outcome must be the first. A difference comes back as an error, which every value-expecting
 // monitor reports as a violation of its own property (with its own replayable case).
 func secondEvaluation(sc *formula.SourceCode, src string, ctx context.Context, data map[string]interface{}, first string) error {
+	return secondEvaluationOn(nil, sc, src, ctx, data, first)
+}
+
+// secondEvaluationOn additionally repeats the evaluation on the runner that did the first one (a side-effect-free
+// formula must give the same outcome again on the same runner: no per-runner memo may leak).
+func secondEvaluationOn(same *formula.Runner, sc *formula.SourceCode, src string, ctx context.Context, data map[string]interface{}, first string) error {
 	if sideEffectRE.MatchString(src) {
 		return nil
 	}
-	r := formula.NewRunner()
+	runners := []*formula.Runner{formula.NewRunner()}
 	if data != nil {
-		r.SetThis(data)
+		runners[0].SetThis(data)
 	}
-	var v interface{}
-	var err error
-	p, pv := core.Call(func() { v, err = r.Resolve(ctx, sc.Expression) })
-	if second := outcome(v, err, p, pv); second != first {
-		return fmt.Errorf("the second evaluation of the same parsed formula differs from the first: first %s, second %s", clipS(first, 200), clipS(second, 200))
+	if same != nil {
+		runners = append(runners, same)
+	}
+	for i, r := range runners {
+		var v interface{}
+		var err error
+		p, pv := core.Call(func() { v, err = r.Resolve(ctx, sc.Expression) })
+		if second := outcome(v, err, p, pv); second != first {
+			where := "in a fresh runner"
+			if i == 1 {
+				where = "on the same runner"
+			}
+			return fmt.Errorf("evaluating the same parsed formula again %s differs from the first evaluation: first %s, then %s", where, clipS(first, 200), clipS(second, 200))
+		}
 	}
 	return nil
 }
